@@ -376,6 +376,7 @@ package silence
 //@   ensures [encoded-once] count("protodelim.MarshalTo") == 1
 //@   ensures [error-means-no-bytes] ret1("protodelim.MarshalTo") != nil ==> result0 == nil && result1 == ret1("protodelim.MarshalTo")
 //@   ensures [success] ret1("protodelim.MarshalTo") == nil ==> result1 == nil
+//@   assigns nothing
 //@   noeffect protodelim.MarshalTo
 
 //@ func postprocessUnmarshalledSilence
